@@ -618,7 +618,7 @@ func r185(c *Ctx, r *R) {
 // not release the mutex in between (one critical section per mutex).
 func r186(c *Ctx, r *R) {
 	w := c.lockWorld()
-	targets := [][2]string{{"monitor/metrics", "Checker.alert"}, {"pintracker/optracker", "OperationTracker.TrackNewOperation"}, {"pintracker/optracker", "OperationTracker.Clean"}, {"monitor/metrics", "Store.Add"}, {"", "Cluster.alertsHandler"}}
+	targets := [][2]string{{"monitor/metrics", "Checker.alert"}, {"pintracker/optracker", "OperationTracker.TrackNewOperation"}, {"pintracker/optracker", "OperationTracker.Clean"}, {"monitor/metrics", "Store.Add"}, {"", "Cluster.alertsHandler"}, {"pintracker/optracker", "Operation.SetError"}}
 	for _, t := range targets {
 		f := c.fn(r, t[0], t[1])
 		if f == nil {
@@ -650,6 +650,29 @@ func r186(c *Ctx, r *R) {
 			}
 		}
 		_ = li
+		// a callee that takes one of these locks itself is one more
+		// critical section of it (`op.SetPhase(...)` followed by the
+		// function's own Lock)
+		for _, g := range pieces {
+			for _, ci := range callsIn(g) {
+				h := ci.Common().StaticCallee()
+				if h == nil || h.Blocks == nil || singleCallSite[h] == ci {
+					continue
+				}
+				hi := w.infos[h]
+				if hi == nil {
+					continue
+				}
+				seen := map[lockID]bool{}
+				for _, a := range hi.acquires {
+					_, id := lockOp(a.Common())
+					if count[id] > 0 && !seen[id] && sameReceiver(ci, g) {
+						seen[id] = true
+						count[id]++
+					}
+				}
+			}
+		}
 		for id, n := range count {
 			r.Check(n == 1, "atomic:"+t[1]+":"+lockName(id), f.Pos(), t[1]+" reads and updates its guarded state in a single critical section of "+lockName(id),
 				fmt.Sprintf("%s acquires %s %d times: the state it tested in the first critical section may have changed when it acts in the next one (two concurrent callers both pass the test: duplicate alerts / lost operations)", t[1], lockName(id), n))
@@ -658,4 +681,17 @@ func r186(c *Ctx, r *R) {
 			r.Bad("atomic:"+t[1], f.Pos(), "%s no longer takes a lock around its check-then-act sequence", t[1])
 		}
 	}
+}
+
+// sameReceiver: the call is a method call on the enclosing method's own
+// receiver (so a lock field of the callee's receiver is the caller's).
+func sameReceiver(ci ssa.CallInstruction, g *ssa.Function) bool {
+	if g.Signature.Recv() == nil || len(g.Params) == 0 || ci.Common().IsInvoke() {
+		return false
+	}
+	h := ci.Common().StaticCallee()
+	if h == nil || h.Signature.Recv() == nil || len(ci.Common().Args) == 0 {
+		return false
+	}
+	return stripLocal(ci.Common().Args[0]) == ssa.Value(g.Params[0])
 }
